@@ -115,6 +115,40 @@ def gen_cases(rng, tier):
             v = ("slice", rng.choice(leaves), rng.choice(leaves), rng.choice(leaves))
             alt = rng.choice([x for x in leaves if x != v[pos]])
             near_dup((3, 14), v, v[:pos] + (alt,) + v[pos + 1:], "slice-field%d" % pos)
+    # a flagged object of every kind ahead of shared objects: the numbering of all later references depends on its slot
+    def leading(ver):
+        ints = [struct.pack("<i", k) for k in range(300)]
+        items256 = tuple(("int", ints[k]) for k in range(256))
+        yield "tuple256", ("seq", b"(", items256)
+        yield "tuple255", ("seq", b"(", items256[:255])
+        yield "tuple0", ("seq", b"(", ())
+        yield "list", ("seq", b"[", items256[:3])
+        yield "frozenset", ("seq", b">", items256[:2])
+        yield "set", ("seq", b"<", items256[:2])
+        yield "dict", ("dict", (("str", b"u", b"k"), ("int", ints[7])))
+        for c in (b"s", b"t", b"u", b"a", b"A"):
+            yield "str-" + c.decode(), ("str", c, b"text" * 70)
+        for c in (b"z", b"Z"):
+            yield "str-" + c.decode(), ("str", c, b"short")
+        yield "int", ("int", ints[5])
+        yield "long", ("long", 2 ** 70 + 3)
+        yield "float", ("float", struct.pack("<d", 2.5))
+        yield "complex", ("complex", struct.pack("<dd", 1.0, -2.0))
+        if ver >= (3, 14):
+            yield "slice", ("slice", ("int", ints[1]), ("single", b"N"), ("int", ints[2]))
+        for _attempt in range(50):
+            v = pm.gen_value(rng, ver, 1)
+            if v[0] == "code":
+                yield "code", v
+                break
+
+    for ver in ((3, 4), (3, 8), (3, 11), (3, 12), (3, 14)):
+        for tag, lead in leading(ver):
+            shared = ("str", b"u", b"shared " + tag.encode())
+            other = ("seq", b"(", (("int", struct.pack("<i", 9)), shared))
+            top = ("seq", b"[", (lead, shared, other, shared, ("seq", b"(", (other, lead))))
+            for fp in (1.0, 0.0):
+                add(pm.header(ver) + pm.dumps(top, ver, rng, fp), ["flagged-lead", tag, "%d.%d" % ver, "flags%.1f" % fp], ver, top)
     # versions the tool leaves alone: every release magic before 3.4, with a payload that 3.4+ rules would rewrite
     for magic in (62211, 3000, 3131, 3141, 3151, 3160, 3180, 3190, 3210, 3220, 3230):
         hdr = bytes([magic & 255, magic >> 8]) + b"\r\n" + b"\0" * (8 if magic >= 3190 else 4)
@@ -304,6 +338,7 @@ def run(ctx):
     impl, model, mism = hd.differential(ctx, cases, "pyc")
     known = hd.known_kinds_for("C02")
     fails = hd.apply_oracle(ctx, cases, impl, oracle, known)
+    hd.cli_pass(ctx, cases, impl, "pyc", "pyc")
     hd.domain_pass(ctx, cases, impl, ("pyc",), "C02_rewritten_file_rereads")
     ctx.coverage.update({
         "evaluations": len(cases),
